@@ -27,6 +27,11 @@ func runC05(c *an.Ctx) {
 	r05e(c)
 	r05f(c)
 	r05g(c)
+	// round 7
+	r05h(c)
+	r05i(c)
+	r05j(c)
+	r05k(c)
 }
 
 // R05a: verdict finality in constraint.Attributes.Satisfy.
